@@ -470,7 +470,7 @@ func runResp(c *corr.Ctx) error {
 	}
 
 	// 3. valid arrays, with truncations / terminator faults / mutations of some
-	nValid := c.Scale(250, 6000)
+	nValid := c.Scale(250, 1500)
 	for i := 0; i < nValid; i++ {
 		n := r.Intn(7)
 		if r.Intn(10) == 0 {
@@ -546,7 +546,7 @@ func runResp(c *corr.Ctx) error {
 	}
 
 	// 4. inline commands
-	nInline := c.Scale(300, 8000)
+	nInline := c.Scale(300, 3000)
 	for i := 0; i < nInline; i++ {
 		nw := 1 + r.Intn(4)
 		words := make([][]byte, nw)
@@ -584,7 +584,7 @@ func runResp(c *corr.Ctx) error {
 	}
 
 	// 5. garbage
-	nGarbage := c.Scale(400, 10000)
+	nGarbage := c.Scale(400, 3000)
 	for i := 0; i < nGarbage; i++ {
 		rr.run("garbage", randBytes(r, r.Intn(40)), respFrame{})
 	}
